@@ -32,3 +32,10 @@ package glf
 //@   loop#2 invariant forall p int, q int :: 0 <= p && p < len(others) && 0 <= q && q < len(others[p]) ==> has(uniqueOthers, others[p][q])
 //@   loop#2 invariant forall k int :: 0 <= k && k < len(res) ==> !has(uniqueOthers, res[k]) && (exists i0 int witness rangeindex :: 0 <= i0 && i0 <= rangeindex && ours[i0] == res[k])
 //@   loop#2 invariant forall i0 int :: 0 <= i0 && i0 <= rangeindex && !has(uniqueOthers, ours[i0]) ==> (exists k int witness len(res) - 1 :: 0 <= k && k < len(res) && res[k] == ours[i0])
+
+// C18: one Filter is shared by the partition goroutines of a load (and by
+// the JSON encoders of the client): after construction its accessors only
+// read.
+//@ nostore (*Filter).Addresses props=C18
+//@ nostore (*Filter).Topics props=C18
+//@ nostore (*Filter).String props=C18
